@@ -100,6 +100,12 @@ func (k Keeper) RegisterNewTokenAndSetTokenFeeder(ctx sdk.Context, oInfo *types.
 		EndBlock: 0,
 	})
 
+	// the parameters are stored without further checks (and exported with the genesis), so the
+	// result has to pass the validation that every other way of changing them applies, e.g.
+	// a feeder interval of at least twice the length of a round's window
+	if err := p.Validate(); err != nil {
+		return err
+	}
 	// the in-memory caches are not touched here: this runs inside a transaction (an EVM
 	// call to the assets precompile) that can still be reverted as a whole, which takes back
 	// the store write below but would not take back a cached copy. The oracle's EndBlock
